@@ -229,8 +229,42 @@ def paveba_pairing(ctx):
     return viol, st
 
 
+def cost_forms(ctx):
+    """the cost-weighted single-objective variance of MaxVarianceDecoupledAcquisition, and the pair the decoupled optimiser then
+    picks, for every way a caller may write the cost vector (float / integer, list / tuple / ndarray); deterministic"""
+    from vopy.acquisition import MaxVarianceDecoupledAcquisition, optimize_decoupled_acqf_discrete
+    viol, n = [], 0
+    X = np.array([[k / 4.0, 0.5] for k in range(4)])
+    var = np.array([[1.0, 4.0], [2.0, 3.0], [0.5, 9.0], [1.5, 1.0]])          # per design, per objective
+
+    class M:
+        input_dim = 2; output_dim = 2
+        def predict(self, x):
+            idx = [int(round(r[0] * 4)) for r in np.atleast_2d(x)]
+            return np.zeros((len(idx), 2)), np.array([np.diag(var[i]) for i in idx])
+    for costs in ([1.0, 3.0], [1, 3], (2, 3), np.array([1, 3]), np.array([2.0, 0.5]), np.array([4, 1]), None):
+        cl = None if costs is None else [float(c) for c in costs]
+        for e in (0, 1):
+            acq = MaxVarianceDecoupledAcquisition(M(), evaluation_index=e, costs=costs)
+            got = np.asarray(acq(X), dtype=float).ravel()
+            want = var[:, e] / (cl[e] if cl else 1.0)
+            n += 1
+            if got.shape != want.shape or not np.allclose(got, want, rtol=1e-12, atol=0):
+                viol.append({"signature": "cost-weighted-variance-wrong", "message": f"MaxVarianceDecoupledAcquisition(costs={costs!r}, evaluation_index={e}) values {got.tolist()}, variance / cost is {want.tolist()}", "replay": {"kind": "costs", "costs": cl, "e": e}})
+        pts, vals, eis = optimize_decoupled_acqf_discrete(MaxVarianceDecoupledAcquisition(M(), costs=costs), 2, X)
+        table = {(i, e): var[i, e] / (cl[e] if cl else 1.0) for i in range(4) for e in (0, 1)}
+        best = sorted(table.values(), reverse=True)[:2]
+        got = [table[(int(round(p[0] * 4)), int(e))] for p, e in zip(np.atleast_2d(pts), np.ravel(eis))]
+        n += 1
+        if not np.allclose(sorted(got, reverse=True), best, rtol=1e-12) or not np.allclose(np.ravel(vals), got, rtol=1e-12):
+            viol.append({"signature": "cost-weighted-pair-not-maximal", "message": f"decoupled optimiser with costs={costs!r} requested pairs worth {got} (reported {np.ravel(vals).tolist()}); the two best cost-weighted variances are {best}", "replay": {"kind": "costs", "costs": cl}})
+    return viol, {"cost_form_checks": n}
+
+
 def run(ctx):
+    v0, s0 = cost_forms(ctx)
     v1, s1 = optimiser_cases(ctx)
+    v1 = v0 + v1; s1 = {**s0, **s1}
     v2, s2, recs = step_checks(ctx)
     v3, s3 = paveba_pairing(ctx)
     v2 = v2 + v3
